@@ -687,3 +687,77 @@ def _(element: FileSelK) -> Opt[Inst]:
     ensures(implies(result is not None and ext == ".csv", some(result).src == "jr://file-csv/" + it))
     ensures(implies(result is not None and ext != ".csv", some(result).src == "jr://file/" + it))
     ensures(implies(result is not None, SrcInstanceOk(some(result).instance, root, some(some(result).src))))
+
+
+# ---------------------------------------------------------------- itext entries of one choice (C08, C07)
+
+ChLabelVal = Union[str, Dict[str, str]]
+ChoiceTrK = Obj("Option", name=str, label=Opt[Union[str, Dict[str, ChLabelVal]]], media=Opt[Dict[str, ChLabelVal]])
+SurveyDL = Obj("Survey", name=str, default_language=str)
+ChItem = Tuple[List[str], str]      # ([language, text id, form], text) as _add_to_nested_dict files it
+
+
+@spec
+def ChInner(tid: str, form: str, d: Dict[str, str], n: int) -> List[ChItem]:
+    """The first n language columns of one form (long, image, audio ...) of a choice: one entry per column, under the
+    choice's own text id, that column's language, that column's text (C08)."""
+    if n <= 0:
+        return []
+    return ChInner(tid, form, d, n - 1) + [([keys(d)[n - 1], tid, form], d[keys(d)[n - 1]])]
+
+
+@spec
+def ChLabel(tid: str, L: Dict[str, ChLabelVal], n: int) -> List[ChItem]:
+    """The first n label columns of a choice: `label::lang` holds the text for lang (form "long"); a nested dict holds one
+    form with its own language columns."""
+    if n <= 0:
+        return []
+    if isinstance(L[keys(L)[n - 1]], dict):
+        return ChLabel(tid, L, n - 1) + ChInner(tid, keys(L)[n - 1], as_dict(L[keys(L)[n - 1]]), len(keys(L[keys(L)[n - 1]])))
+    return ChLabel(tid, L, n - 1) + [([keys(L)[n - 1], tid, "long"], as_str(L[keys(L)[n - 1]]))]
+
+
+@spec
+def ChMedia(tid: str, dl: str, M: Dict[str, ChLabelVal], n: int) -> List[ChItem]:
+    """The first n media columns of a choice: a translated medium contributes one entry per language column; an
+    unsuffixed one is filed under the default language ("the unsuffixed column for the default language")."""
+    if n <= 0:
+        return []
+    if isinstance(M[keys(M)[n - 1]], dict):
+        return ChMedia(tid, dl, M, n - 1) + ChInner(tid, keys(M)[n - 1], as_dict(M[keys(M)[n - 1]]), len(keys(M[keys(M)[n - 1]])))
+    return ChMedia(tid, dl, M, n - 1) + [([dl, tid, keys(M)[n - 1]], as_str(M[keys(M)[n - 1]]))]
+
+
+@contract("Survey._setup_translations.<locals>.get_choice_content")
+def _(name: str, idx: int, choice: ChoiceTrK) -> List[ChItem]:
+    properties("C08", "C07")
+    no_native("nested generator: exercised through the e2e oracle")
+    closure(self=SurveyDL)
+    merge_paths()
+    tid = name + "-" + str(idx)
+    lab = (ChLabel(tid, some(choice.label), len(keys(some(choice.label)))) if isinstance(choice.label, dict)
+           else ([([self.default_language, tid, "long"], as_str(some(choice.label)))]
+                 if choice.label is not None and len(some(choice.label)) > 0 else []))
+    med = (ChMedia(tid, self.default_language, some(choice.media), len(keys(some(choice.media))))
+           if choice.media is not None else [])
+    # C08 for choices: under the choice's own text id `<list>-<index>` (the id its itextId carries: C07), one entry per
+    # language column of its label and of each medium, that language, that text; an unsuffixed label / medium under the
+    # default language; nothing else — no other language, no other choice's id or text
+    ensures(result == lab + med)
+    cut_before_assign("choice_media", _yield == lab)
+
+    @loop(0, index="i")
+    def _():
+        invariant(_yield == _yield_at_entry + ChLabel(tid, choice_label, i))
+
+    @loop(1, index="j")
+    def _():
+        invariant(_yield == _yield_at_entry + ChInner(tid, lang, value, j))
+
+    @loop(2, index="i")
+    def _():
+        invariant(_yield == _yield_at_entry + ChMedia(tid, self.default_language, choice_media, i))
+
+    @loop(3, index="j")
+    def _():
+        invariant(_yield == _yield_at_entry + ChInner(tid, media, value, j))
